@@ -147,6 +147,38 @@ theorem Graph.mem_names_iff (g : Graph) (nm : String) :
   rw [← not_iff_not, ← Graph.indexOf?_eq_none_iff]
   cases g.indexOf? nm <;> simp
 
+/-- under unique names, the node stored at position `i` is found at position `i` -/
+theorem Graph.indexOf?_of_getElem? {g : Graph} (hnd : g.names.Nodup) {i : Nat} {n : Node}
+    (h : g.nodes[i]? = some n) : g.indexOf? n.name = some i := by
+  obtain ⟨hlt, hn⟩ := List.getElem?_eq_some_iff.mp h
+  have hlt' : i < g.names.length := by rw [g.names_length]; exact hlt
+  have h1 : g.names[i] = n.name := by simp only [Graph.names, List.getElem_map, hn]
+  have h2 : g.names.idxOf n.name = i := by rw [← h1]; exact hnd.idxOf_getElem i hlt'
+  unfold Graph.indexOf?
+  simp only [h2, hlt, if_true]
+
+/-- `indexOf?` looks at the node list only -/
+theorem Graph.indexOf?_congr_nodes {g g' : Graph} (h : g.nodes = g'.nodes) (nm : String) :
+    g.indexOf? nm = g'.indexOf? nm := by
+  unfold Graph.indexOf? Graph.names; rw [h]
+
+theorem Graph.hi_congr_nodes {g g' : Graph} (h : g.nodes = g'.nodes) (i : Nat) : g.hi i = g'.hi i := by
+  unfold Graph.hi; rw [h]
+
+theorem Graph.lo_congr_nodes {g g' : Graph} (h : g.nodes = g'.nodes) (i : Nat) : g.lo i = g'.lo i := by
+  unfold Graph.lo; rw [h]
+
+/-- assigning to a key that is not present appends -/
+theorem dictSet_of_not_mem_keys (d : List (Key × Arc)) (k : Key) (a : Arc) (h : k ∉ d.map (·.1)) :
+    dictSet d k a = d ++ [(k, a)] := by
+  induction d with
+  | nil => rfl
+  | cons e rest ih =>
+    obtain ⟨k', a'⟩ := e
+    simp only [List.map_cons, List.mem_cons, not_or] at h
+    have hk : ¬ k' = k := fun h' => h.1 h'.symm
+    simp only [dictSet, hk, if_false, List.cons_append, ih h.2]
+
 /-! ### `leE` -/
 
 theorem leE_of_ltE_false {hi : ERat} {lo : Rat} (h : ltE hi lo = false) : leE lo hi = true := by
